@@ -476,6 +476,8 @@ static std::vector<Spec> c04_specs(const std::string& tier) {
         }
         cur = nxt;
     }
+    // (i') the empty script, with and without initial stack items: a session that is finished before any step - every rewind is refused
+    for (auto sv : {ref::SigVer::BASE, ref::SigVer::WITNESS_V0, ref::SigVer::TAPSCRIPT}) for (int items = 0; items < 2; items++) { Spec sp; sp.sv = sv; sp.flags = 0; if (items) sp.stack = {bytes{1}}; out.push_back(sp); }
     // (ii) hand-shaped sessions
     auto add = [&](ref::SigVer sv, uint32_t f, const std::string& hexs, std::vector<bytes> stack = {}, const std::string& succ = "", int64_t w = 1000000) { Spec sp; sp.sv = sv; sp.flags = f; sp.script = ref::unhex(hexs); sp.stack = stack; sp.successor = ref::unhex(succ); sp.weight = w; out.push_back(sp); };
     for (auto sv : {ref::SigVer::BASE, ref::SigVer::WITNESS_V0, ref::SigVer::TAPSCRIPT}) {
@@ -520,9 +522,15 @@ int main(int argc, char** argv) {
         // sessions for exec: the completing scripts of <= 3 ops (quick) / <= 4 ops (thorough) plus the hand-shaped ones; single-script only
         std::vector<Spec> s2; size_t lim = tier == "quick" ? 3 : 4;
         auto has_success = [](const Spec& s) { if (s.sv != ref::SigVer::TAPSCRIPT) return false; for (size_t pc = 0; pc < s.script.size();) { ref::Op o = ref::decode_op(s.script, pc); if (!o.ok) return false; if (ref::is_op_success(o.code)) return true; pc = o.end; } return false; };
-        for (auto& s : specs) if (s.successor.empty() && (s.script.size() <= lim || s.script.size() > 5) && !has_success(s)) s2.push_back(s);
+        // (the empty script is left to C04: a session that is over before it starts has no "next operations of the script" for exec to stand in for)
+        for (auto& s : specs) if (s.successor.empty() && !s.script.empty() && (s.script.size() <= lim || s.script.size() > 5) && !has_success(s)) s2.push_back(s);
         specs.swap(s2);
         for (auto sv : {ref::SigVer::BASE, ref::SigVer::WITNESS_V0, ref::SigVer::TAPSCRIPT}) { Spec sp; sp.sv = sv; sp.flags = ref::F_STANDARD & ~ref::F_CLEANSTACK; sp.script = ref::unhex("5152935387"); specs.push_back(sp); sp.script = ref::unhex("51635267536851"); specs.push_back(sp); }
+        // stacks at the 1000-item limit and one below it (main stack alone, and 900 + 100 on the alt stack after the first two steps): an exec'd
+        // push or operation that would exceed the limit fails and leaves the session where it was
+        for (auto sv : {ref::SigVer::BASE, ref::SigVer::TAPSCRIPT}) for (int n : {999, 1000}) {
+            Spec sp; sp.sv = sv; sp.flags = 0; sp.script = ref::unhex("6161"); sp.stack.assign(size_t(n), bytes{1}); specs.push_back(sp);
+        }
     }
     int L = int(a.geti("L", tier == "quick" ? 8 : 13));
     auto toks = exec_tokens(tier != "quick");
